@@ -160,10 +160,16 @@ impl CharProperty {
                 let (category, invoke, group, length) = Self::parse_char_category(line)?;
                 let new_cate_id = u32::try_from(cate_map.len()).unwrap();
                 let cate_id = *cate_map.entry(category).or_insert(new_cate_id);
-                cate2info.insert(
-                    cate_id,
-                    CharInfo::new(0, cate_id, invoke, group, length).unwrap(),
-                );
+                if usize::from_u32(cate_id) >= CATE_IDSET_BITS {
+                    let msg =
+                        format!("The number of categories must be no more than {CATE_IDSET_BITS}.");
+                    return Err(VibratoError::invalid_format("char.def", msg));
+                }
+                let cinfo = CharInfo::new(0, cate_id, invoke, group, length).ok_or_else(|| {
+                    let msg = format!("LENGTH must be less than {}, {line}", 1 << LENGTH_BITS);
+                    VibratoError::invalid_format("char.def", msg)
+                })?;
+                cate2info.insert(cate_id, cinfo);
             } else {
                 char_ranges.push(Self::parse_char_range(line)?);
             }
@@ -198,17 +204,22 @@ impl CharProperty {
     where
         S: AsRef<str>,
     {
-        let mut base_cinfo = *cate_map
-            .get(targets[0].as_ref())
-            .and_then(|base_target_id| cate2info.get(base_target_id))
-            .ok_or_else(|| {
-                let msg = format!("Undefined category: {}", targets[0].as_ref());
-                VibratoError::invalid_format("char.def", msg)
-            })?;
+        let lookup = |target: &str| {
+            cate_map
+                .get(target)
+                .and_then(|target_id| cate2info.get(target_id))
+                .ok_or_else(|| {
+                    let msg = format!("Undefined category: {target}");
+                    VibratoError::invalid_format("char.def", msg)
+                })
+        };
+        let base_target = targets.first().ok_or_else(|| {
+            VibratoError::invalid_format("char.def", "A character range must have a category.")
+        })?;
+        let mut base_cinfo = *lookup(base_target.as_ref())?;
         let mut cate_idset = base_cinfo.cate_idset();
         for target in targets {
-            let target_id = cate_map.get(target.as_ref()).unwrap();
-            let cinfo = cate2info.get(target_id).unwrap();
+            let cinfo = lookup(target.as_ref())?;
             cate_idset |= 1 << cinfo.base_id();
         }
         base_cinfo.reset_cate_idset(cate_idset);
